@@ -42,7 +42,7 @@ use ironplc_dsl::{
 };
 use ironplc_problems::Problem;
 use petgraph::{
-    algo::toposort,
+    algo::{tarjan_scc, toposort},
     stable_graph::{NodeIndex, StableDiGraph},
 };
 use std::collections::HashMap;
@@ -214,6 +214,10 @@ struct DeclarationsGraph {
     // of tht item in the graph.
     id_to_index: HashMap<Id, NodeIndex>,
     index_to_id: HashMap<NodeIndex, Id>,
+
+    // The name at the declaration of the item (where there is a declaration:
+    // a node is also created by the first reference to a name)
+    declared: HashMap<NodeIndex, Id>,
 }
 impl DeclarationsGraph {
     fn new() -> Self {
@@ -221,7 +225,15 @@ impl DeclarationsGraph {
             graph: StableDiGraph::new(),
             id_to_index: HashMap::new(),
             index_to_id: HashMap::new(),
+            declared: HashMap::new(),
         }
+    }
+
+    /// Adds the node for a declaration (rather than for a reference to one).
+    fn add_declaration(&mut self, id: &Id) -> NodeIndex<u32> {
+        let index = self.add_node(id);
+        self.declared.entry(index).or_insert_with(|| id.clone());
+        index
     }
 
     fn add_node(&mut self, id: &Id) -> NodeIndex<u32> {
@@ -248,18 +260,29 @@ impl DeclarationsGraph {
 
     fn sorted_ids(&self) -> Result<Vec<Id>, Diagnostic> {
         let sorted_nodes = toposort(&self.graph, None).map_err(|err| {
-            let id_in_cycle = self.index_to_id.get(&err.node_id());
+            // Which member of the cycle the sort stumbled over depends on the order of
+            // the declarations. Name the same member whatever the order: the one that
+            // is first by name, at its declaration.
+            let member = tarjan_scc(&self.graph)
+                .into_iter()
+                .find(|component| component.contains(&err.node_id()))
+                .and_then(|component| {
+                    component
+                        .into_iter()
+                        .min_by_key(|node| self.index_to_id.get(node).map(|id| id.lower_case().clone()))
+                })
+                .unwrap_or(err.node_id());
+            let id_in_cycle = self
+                .declared
+                .get(&member)
+                .or_else(|| self.index_to_id.get(&member));
 
             let span = match id_in_cycle {
                 Some(id) => id.span.clone(),
                 None => SourceSpan::range(0, 0).with_file_id(&FileId::default()),
             };
 
-            Diagnostic::problem(
-                Problem::RecursiveCycle,
-                // TODO wrong location
-                Label::span(span, "Cycle"),
-            )
+            Diagnostic::problem(Problem::RecursiveCycle, Label::span(span, "Cycle"))
         })?;
         let sorted_ids: Vec<Id> = sorted_nodes
             .iter()
@@ -293,7 +316,7 @@ impl Visitor<Diagnostic> for RuleGraphReferenceableElements {
         &mut self,
         node: &LateBoundDeclaration,
     ) -> Result<Self::Value, Diagnostic> {
-        let this = self.declarations.add_node(&node.data_type_name.name);
+        let this = self.declarations.add_declaration(&node.data_type_name.name);
         let depends_on = self.declarations.add_node(&node.base_type_name.name);
         self.declarations.graph.add_edge(depends_on, this, ());
 
@@ -304,7 +327,7 @@ impl Visitor<Diagnostic> for RuleGraphReferenceableElements {
         &mut self,
         node: &EnumerationDeclaration,
     ) -> Result<Self::Value, Diagnostic> {
-        let this = self.declarations.add_node(&node.type_name.name);
+        let this = self.declarations.add_declaration(&node.type_name.name);
 
         if let EnumeratedSpecificationKind::TypeName(parent) = &node.spec_init.spec {
             let depends_on = self.declarations.add_node(&parent.name);
@@ -318,7 +341,7 @@ impl Visitor<Diagnostic> for RuleGraphReferenceableElements {
         &mut self,
         node: &SubrangeDeclaration,
     ) -> Result<Self::Value, Diagnostic> {
-        let this = self.declarations.add_node(&node.type_name.name);
+        let this = self.declarations.add_declaration(&node.type_name.name);
 
         if let SubrangeSpecificationKind::Type(parent) = &node.spec {
             let depends_on = self.declarations.add_node(&parent.name);
@@ -332,7 +355,7 @@ impl Visitor<Diagnostic> for RuleGraphReferenceableElements {
         &mut self,
         node: &ArrayDeclaration,
     ) -> Result<Self::Value, Diagnostic> {
-        let this = self.declarations.add_node(&node.type_name.name);
+        let this = self.declarations.add_declaration(&node.type_name.name);
 
         // The array depends on either the array type it renames or on the type of its elements
         let parent = match &node.spec {
@@ -350,7 +373,7 @@ impl Visitor<Diagnostic> for RuleGraphReferenceableElements {
         node: &StructureDeclaration,
     ) -> Result<Self::Value, Diagnostic> {
         self.current_from = Some(node.type_name.name.clone());
-        self.declarations.add_node(&node.type_name.name);
+        self.declarations.add_declaration(&node.type_name.name);
         let res = node.recurse_visit(self);
         self.current_from = None;
         res
@@ -363,7 +386,7 @@ impl Visitor<Diagnostic> for RuleGraphReferenceableElements {
         node: &FunctionDeclaration,
     ) -> Result<Self::Value, Diagnostic> {
         self.current_from = Some(node.name.clone());
-        self.declarations.add_node(&node.name);
+        self.declarations.add_declaration(&node.name);
         let res = node.recurse_visit(self);
         self.current_from = None;
         res
@@ -374,7 +397,7 @@ impl Visitor<Diagnostic> for RuleGraphReferenceableElements {
         node: &FunctionBlockDeclaration,
     ) -> Result<Self::Value, Diagnostic> {
         self.current_from = Some(node.name.clone());
-        self.declarations.add_node(&node.name);
+        self.declarations.add_declaration(&node.name);
         let res = node.recurse_visit(self);
         self.current_from = None;
         res
@@ -385,7 +408,7 @@ impl Visitor<Diagnostic> for RuleGraphReferenceableElements {
         node: &ProgramDeclaration,
     ) -> Result<Self::Value, Diagnostic> {
         self.current_from = Some(node.name.clone());
-        self.declarations.add_node(&node.name);
+        self.declarations.add_declaration(&node.name);
         let res = node.recurse_visit(self);
         self.current_from = None;
         res
@@ -396,7 +419,7 @@ impl Visitor<Diagnostic> for RuleGraphReferenceableElements {
         node: &ironplc_dsl::configuration::ConfigurationDeclaration,
     ) -> Result<Self::Value, Diagnostic> {
         self.current_from = Some(node.name.clone());
-        self.declarations.add_node(&node.name);
+        self.declarations.add_declaration(&node.name);
         let res = node.recurse_visit(self);
         self.current_from = None;
         res
